@@ -347,7 +347,7 @@ def _save_graph_data(pt: ProblemTable, pt_real: ProblemTable) -> Zone:
     """Assemble the problem-table slices required for composite/comparison plots."""
     pt.round(decimals=4)
     pt_real.round(decimals=4)
-    return {
+    graphs = {
         GT.CC.value: pt_real[[PT.T.value, PT.H_HOT.value, PT.H_COLD.value]],
         GT.SCC.value: pt[[PT.T.value, PT.H_HOT.value, PT.H_COLD.value]],
         GT.BCC.value: pt_real[[PT.T.value, PT.H_HOT_BAL.value, PT.H_COLD_BAL.value]],
@@ -356,6 +356,10 @@ def _save_graph_data(pt: ProblemTable, pt_real: ProblemTable) -> Zone:
         GT.NLC.value: pt[[PT.T.value, PT.H_NET_HOT.value, PT.H_NET_COLD.value, PT.H_HOT_UT.value, PT.H_COLD_UT.value]],
         GT.GCC_HP.value: pt[[PT.T.value, PT.H_NET_W_AIR.value, PT.H_NET_HP_PRO.value]],
     }
+    # The balanced curves are only calculated on request; without them there is nothing to plot
+    if np.isnan(np.asarray(pt_real.col[PT.H_HOT_BAL.value], dtype=float)).all():
+        del graphs[GT.BCC.value]
+    return graphs
 
 
 def _validate_heat_pump_targeting_required(
